@@ -440,8 +440,24 @@ def build(cfg, shape=(4, 4), subset_pixels=7):
 
 
 def names_ok(c):
-    got = list(c.model.parameters)
-    return sorted(got) == sorted(c.names.values()), got
+    """map every site to the key model.parameters uses for its prior: the
+    prior's own name, else (naming is C11's subject, not this property's)
+    the unique parameter that equals the prior apart from its name"""
+    mp = c.model.parameters
+    got = list(mp)
+    if sorted(got) == sorted(c.names.values()):
+        return True, got
+    names = {}
+    for s, _ in c.sites:
+        mine = c.priors[s].renamed(None)
+        hits = [nm for nm, p in mp.items() if p.renamed(None) == mine]
+        if len(hits) != 1 or hits[0] in names.values():
+            return False, got
+        names[s] = hits[0]
+    if len(names) != len(mp):
+        return False, got
+    c.names = names
+    return True, got
 
 
 def values_of(c, vec):
@@ -480,8 +496,9 @@ def harness_forward(c, vals, detector):
 # oracles
 # ---------------------------------------------------------------------------
 def support_and_density(c, vals):
-    """(in_support, closed-form sum or None, list of per-site closed forms or
-    None where the property gives no closed form)"""
+    """(all values inside their supports?, per-site closed-form log density
+    -- None where the property gives no closed form: BoundedGaussian is
+    documented as 'proportional to' only)"""
     ok = True
     terms = []
     for s, k in c.sites:
@@ -534,7 +551,7 @@ def constraint_ok(c, vals):
 
 
 def noise_expected(c, vals):
-    """('sd', per-channel list or scalar) | ('missing',) | ('unit',)"""
+    """('sd', scalar or per-channel list) | ('missing',)"""
     m = c.noise_mode
     if m in ("model", "both", "model@2ch"):
         return ("sd", SD_MODEL)
@@ -805,7 +822,6 @@ def _run_cfg(case, ck):
     # ---- list form == dict form; LnpostWrapper ---------------------------
     if case.get("block") in (None, 0):
         order = list(c.model.parameters)
-        inv = {v: k for k, v in c.names.items()}
         alph = {s: site_alphabet(s, k) for s, k in c.sites}
         guess = {s: alph[s][0] for s, _ in c.sites}
         s0 = c.sites[0][0]
